@@ -362,6 +362,40 @@ def leftovers_worker(args):
     return res
 
 
+# ---- a break whose nearest loop lies outside the routine it is written in: rejected, or every jump stays in the routine ----
+OUTER_LOOPS = ['repeat 2 begin %s end', 'repeat all as l begin %s end', 'repeat with i from 1 to 2 begin %s end', 'repeat while {1 > 2} begin %s end',
+               'repeat 2 begin repeat in "Top" as l begin %s end end', 'repeat 2 begin if {1 > 0} begin %s end end']
+LOOSE_DEFS = ['define r9 break r9', 'define r9 begin break end r9', 'define r9 begin on all break off all end r9', 'define r9 begin if {1 > 0} break end r9',
+              'define r9 begin if {1 > 2} on all else begin break end end r9', 'define r9 with a begin if {a > 0} break return a end print [r9 1]',
+              'define r9 begin break end', 'define r8 begin repeat 2 begin on all end break end r8']
+
+
+def loose_break_worker(args):
+    from bardolph.parser.parse import Parser
+    res = report.WorkResult('break in a routine defined inside a loop')
+    world.start_function_trace()
+    res.sites.add('loose-break')
+    for loop in OUTER_LOOPS:
+        for d in LOOSE_DEFS:
+            text = loop % d
+            res.nontrivial += 1
+            world.configure()
+            p = Parser()
+            ok = p.parse(text)
+            res.reached.add('loose-break')
+            if not ok:
+                if 'Line ' not in p.get_errors():
+                    res.violation('loose-break|no message', 'rejected without a line-numbered message: %s' % text, inputs={'script': text}, replayed=True)
+                continue
+            issues, _ = static_checks(p.get_program())
+            if issues:
+                res.violation('loose-break|%s' % re.sub(r'\d+', 'N', issues[0])[:60],
+                              'accepted, but a control transfer leaves the routine it is written in: %s\n  script: %s' % ('; '.join(issues[:3]), text),
+                              inputs={'script': text}, replayed=True)
+    res.functions = world.functions_seen()
+    return res
+
+
 def run(tier, seed):
     t0 = time.time()
     cases, n_def = build_cases(tier, seed)
@@ -369,7 +403,8 @@ def run(tier, seed):
               'budget_s': 12 if tier == 'quick' else 90} for c in cases]
     items.append({'duplicates': True})
     items.append({'leftovers': True})
-    results, skipped = report.run_pool(lambda a: duplicates_worker(a) if 'duplicates' in a else leftovers_worker(a) if 'leftovers' in a else worker(a), items, budget_s=common.tier_budget(tier, 70, 900))
+    items.append({'loose_break': True})
+    results, skipped = report.run_pool(lambda a: duplicates_worker(a) if 'duplicates' in a else leftovers_worker(a) if 'leftovers' in a else loose_break_worker(a) if 'loose_break' in a else worker(a), items, budget_s=common.tier_budget(tier, 70, 900))
     jumps = sum(r.extra.get('jumps', 0) for r in results)
     return report.finish(
         PROP, tier, seed, 'exploration', results, skipped,
